@@ -89,7 +89,8 @@ Print Assumptions guard_hclose_reports_failed_update.
     guarded SD handle is not re-assigned after it, no successful exit and no store through a pointer (free, ++, p->x =,
     a[i] =) stands before it (the one exception is SDsetexternalfile's documented no-op exit for a dataset that is
     external already).  A guard moved into or behind a branch, or a handle looked up again after the guard, changes
-    these numbers. *)
+    these numbers.  The helper SDIregister_data_ref (a writer of handle->flags without a guard of its own) is never
+    called before the guard of any SD mutator. *)
 Theorem guards_dominate :
   sdcreate_guard_depth = 0 /\
   sdcreate_handle_reassigned_after_guard = 0 /\
@@ -234,7 +235,23 @@ Theorem guards_dominate :
   hwrite_success_exits_before_guard = 0 /\
   hwrite_stores_before_guard = 0 /\
   htrunc_success_exits_before_guard = 0 /\
-  htrunc_stores_before_guard = 0.
+  htrunc_stores_before_guard = 0 /\
+  sdcreate_registers_before_guard = 0 /\
+  sdsetdimname_registers_before_guard = 0 /\
+  sdsetrange_registers_before_guard = 0 /\
+  sdsetattr_registers_before_guard = 0 /\
+  sdsetdatastrs_registers_before_guard = 0 /\
+  sdsetcal_registers_before_guard = 0 /\
+  sdsetfillvalue_registers_before_guard = 0 /\
+  sdsetdimstrs_registers_before_guard = 0 /\
+  sdsetdimscale_registers_before_guard = 0 /\
+  sdsetdimval_comp_registers_before_guard = 0 /\
+  sdwritedata_registers_before_guard = 0 /\
+  sdsetexternalfile_registers_before_guard = 0 /\
+  sdsetcompress_registers_before_guard = 0 /\
+  sdsetchunk_registers_before_guard = 0 /\
+  sdsetnbitdataset_registers_before_guard = 0 /\
+  sdwritechunk_registers_before_guard = 0.
 Proof. exact guards_dominate_full. Qed.
 Print Assumptions guards_dominate.
 
@@ -356,15 +373,27 @@ Theorem sd_guards_refuse_without_rdwr : forall k fl, Z.land fl NC_RDWR = 0 -> sd
 Proof. exact sd_guard_refuses. Qed.
 Print Assumptions sd_guards_refuse_without_rdwr.
 
-(** exactly fourteen SD functions assign to handle->flags: SDstart, SDend, SDgetdimscale and eleven guarded mutators *)
+(** exactly fourteen functions of mfsd.c named SD... assign to handle->flags: SDstart, SDend, SDgetdimscale, ten guarded
+    mutators and the helper SDIregister_data_ref; the helper has no guard of its own and is called from exactly four
+    functions of mfsd.c -- SDsetcompress, SDsetchunk, SDsetexternalfile, SDsetnbitdataset -- each of them one of the sixteen
+    guarded mutators, and (guards_dominate) never before their guard *)
 Theorem sd_flag_writers :
   sd_flag_updates_count = 14 /\ sd_flag_updates_sdstart = 1 /\ sd_flag_updates_sdend = 2 /\ sd_flag_updates_sdgetdimscale = 1 /\
   sd_flag_updates_sdcreate = 1 /\ sd_flag_updates_sdsetdimname = 2 /\ sd_flag_updates_sdsetrange = 1 /\
   sd_flag_updates_sdsetattr = 1 /\ sd_flag_updates_sdsetdatastrs = 1 /\ sd_flag_updates_sdsetcal = 1 /\
   sd_flag_updates_sdsetfillvalue = 1 /\ sd_flag_updates_sdsetdimstrs = 1 /\ sd_flag_updates_sdsetdimscale = 1 /\
-  sd_flag_updates_sdsetdimval_comp = 1 /\ sd_flag_updates_sdsetcompress = 1.
+  sd_flag_updates_sdsetdimval_comp = 1 /\ sd_flag_updates_sdiregister_data_ref = 1 /\
+  sd_register_callers_count = 4 /\ sd_register_callers_sdsetcompress = 1 /\ sd_register_callers_sdsetchunk = 1 /\
+  sd_register_callers_sdsetexternalfile = 1 /\ sd_register_callers_sdsetnbitdataset = 1.
 Proof. exact sd_flag_writers_are_modelled. Qed.
 Print Assumptions sd_flag_writers.
+
+(** the model's "marks the header dirty" table is the regenerated one: ten mutators by themselves, four through the helper *)
+Theorem sd_header_marking_table :
+  map sd_marks_header (seq 0 16) =
+  [true; true; true; true; true; true; true; true; true; true; false; true; true; true; true; false].
+Proof. exact sd_marks_table. Qed.
+Print Assumptions sd_header_marking_table.
 
 (** ---- non-vacuity: a concrete read-only file with a plain element, a special element, a length-less element,
     a vdata and a vgroup; a history mixing successful reads with every kind of write request ---- *)
